@@ -285,6 +285,14 @@ func init() {
 							if k == len(frame) && fc != 0x2b {
 								want++
 							}
+							if k == len(frame) && ending == "eof" {
+								// cut right after the request: the response cannot be written any more
+								evw, _ := serveScriptedWriteFail([]string{"ok"}, [][]byte{stream}, ending)
+								if cw := strings.Count(evw, "call:"); cw != want || strings.Contains(evw, "panic") {
+									res.Add(Finding{Kind: "property", Check: "server-cut-after-request", Line: line, Impl: evw, Expect: fmt.Sprintf("%d handler call(s), no panic", want),
+										Note: "connection cut after the request was fully received: the handler must run exactly once even though the response cannot be written"})
+								}
+							}
 							if calls != want || strings.Contains(ev, "panic") {
 								res.Add(Finding{Kind: "property", Check: "server-cut", Line: line, Impl: ev, Expect: fmt.Sprintf("%d handler call(s), no panic", want),
 									Note: fmt.Sprintf("request cut after %d of %d bytes (%s)", k, len(frame), ending)})
@@ -411,9 +419,10 @@ func realSocketCuts(seed uint64, res *Result) {
 			return
 		}
 		rtu := isRTUKind(kind)
-		serve := func(k int, reset bool) {
+		serve := func(k int, reset bool, full chan bool) {
 			c, err := ln.Accept()
 			if err != nil {
+				full <- false
 				return
 			}
 			buf := make([]byte, 512)
@@ -433,6 +442,9 @@ func realSocketCuts(seed uint64, res *Result) {
 				if k == len(good) {
 					time.Sleep(20 * time.Millisecond)
 				}
+				full <- k == len(good)
+			} else {
+				full <- false
 			}
 			if reset {
 				if tc, ok := c.(*net.TCPConn); ok {
@@ -444,18 +456,20 @@ func realSocketCuts(seed uint64, res *Result) {
 		for _, op := range c12Ops(r)[:3] {
 			for _, k := range []int{0, 1, 3, 7, 8, 9, 1000} {
 				for _, reset := range []bool{false, true} {
-					go serve(k, reset)
+					full := make(chan bool, 1)
+					go serve(k, reset, full)
 					if err := mc.Open(); err != nil {
 						res.Note("open failed: " + err.Error())
 						continue
 					}
 					out := op.Exec(mc)
 					mc.Close()
-					res.Eval(fmt.Sprintf("real/%s/%s/%d/%v", kind, op.Name, min(k, 10), reset), true, fmt.Sprintf("%s %s cut=%d reset=%v => %s", kind, op.Line(), k, reset, out))
-					if k < 1000 && strings.HasPrefix(out, "ok:") {
+					wasFull := <-full
+					res.Eval(fmt.Sprintf("real/%s/%s/%d/%v", kind, op.Name, min(k, 10), reset), true, fmt.Sprintf("%s %s cut=%d reset=%v full=%v => %s", kind, op.Line(), k, reset, wasFull, out))
+					if !wasFull && strings.HasPrefix(out, "ok:") {
 						res.Add(Finding{Kind: "property", Check: "real-cut-accepted", Line: fmt.Sprintf("%s %s cut=%d reset=%v", kind, op.Line(), k, reset), Impl: out, Expect: "an error"})
 					}
-					if k == 1000 && !strings.HasPrefix(out, "ok:") {
+					if wasFull && !reset && !strings.HasPrefix(out, "ok:") {
 						res.Add(Finding{Kind: "property", Check: "real-reopen", Line: fmt.Sprintf("%s %s full reply after Close+Open", kind, op.Line()), Impl: out, Expect: "ok"})
 					}
 				}
